@@ -380,6 +380,18 @@ def tracker_ground_bad(case, n, record_bitstrings):
         rec = json.load(open(path))["raw-data"]
         if len(rec) != 1 or rec[0]["number_of_shots"] != n or rec[0]["distribution"] != repr(d):
             return "distribution record does not match"
+        # a history of temporary circuits on one tracker: every record carries the circuit of ITS call
+        from orquestra.quantum.circuits import Circuit, RX, H
+
+        t2 = MeasurementTrackingBackend(SymbolicSimulator(seed=5), path, False)
+        for k in range(40):
+            tmp = Circuit([RX(0.1 * k)(0)] + ([H(1)] if k % 3 == 0 else []))
+            want = json.loads(json.dumps(to_dict(tmp)))
+            res = t2.run_and_measure(tmp, 2)
+            del tmp
+            rec = json.load(open(path))["raw-data"]
+            if rec[-1]["circuit"] != want or rec[-1]["counts"] != res.get_counts():
+                return f"record of call {k} in a history of temporary circuits does not carry that call's circuit / counts"
     finally:
         os.unlink(path)
     return None
